@@ -31,9 +31,25 @@ def lattice_data(rng, n, p, kind=None):
     elif kind == 5:  # change at the first / last admissible position
         X[:1] += 9
         X[-1:] += 9
+    elif kind == 7:  # a weak shift in EVERY column (dense but weak: no single column stands out), only on request
+        s = int(rng.integers(0, max(1, n - 2)))
+        e = min(n, s + int(rng.integers(2, 6)))
+        X[s:e] += 1.0
     else:  # dyadic noise
         X = rng.integers(-8, 9, size=(n, p)) / 4.0
     return X
+
+
+class LightDensePenalty:
+    """A user-supplied MVCAPA penalty (documented option): a small constant, nothing per component.  With it an anomaly is
+    reported as soon as the SUMMED saving is positive enough, also when no single column exceeds the sparse per-column
+    penalty that the affected-column inference uses (seeded change C04-e: an empty column list)."""
+
+    def __call__(self, n, p, n_params_per_variable=1, scale=1.0):
+        return 0.5 * scale, np.zeros(p)
+
+    def __repr__(self):
+        return "LightDensePenalty()"
 
 
 def detector_specs():
@@ -64,7 +80,9 @@ def detector_specs():
                             dict(min_segment_length=3, max_segment_length=100, collective_penalty="sparse",
                                  collective_penalty_scale=0.5, point_penalty_scale=1.0),
                             dict(min_segment_length=2, max_segment_length=4, collective_penalty="dense",
-                                 collective_penalty_scale=0.2, point_penalty="dense", point_penalty_scale=0.2)]),
+                                 collective_penalty_scale=0.2, point_penalty="dense", point_penalty_scale=0.2),
+                            dict(min_segment_length=2, max_segment_length=6, collective_penalty=LightDensePenalty(),
+                                 collective_penalty_scale=2.0, point_penalty_scale=2.0)]),
         "CircularBinarySegmentation": (CircularBinarySegmentation,
                                        [dict(min_segment_length=1, max_interval_length=6, threshold_scale=0.3),
                                         dict(min_segment_length=2, max_interval_length=10, threshold_scale=0.5, growth_factor=2.0),
